@@ -82,7 +82,7 @@ T = {
   ref='3 C14'),
  'C15': dict(
   technique='writer/reader table agreement; bounded print-parse round trip on the extracted models',
-  text='Static analysis. (S) printer formats extracted from every __str__ are checked against the reader (keywords, whitespace, parens, separator, constants) and, over all trees the table can produce up to Nt nodes, print -> tokenize -> reduce (all on extracted data) gives the same tree. (N) Rules.__str__ / load agree on \'\' for TrueCheck; RuleDefault equality uses names and printed checks.',
+  text='Static analysis. (S) printer formats extracted from every __str__ are checked against the reader (keywords, whitespace, parens, separator, constants) and, over all trees the table can produce up to Nt nodes, print -> tokenize -> reduce (all on extracted data) gives the same tree. (N) Rules.__str__ / load agree on \'\' for TrueCheck; RuleDefault equality uses names and printed checks; no parser function memoises its (mutable) result unless every caller deep-copies it (C15.FRESH).',
   note='Leaves with embedded whitespace are outside the quantifier.',
   ref='3 C15'),
  'C16': dict(
@@ -93,12 +93,12 @@ T = {
  'C17': dict(
   technique='string-shape / taint analysis of the sample generator',
   text='Static analysis. (S) the help-text sanitizer is shown to return only #-prefixed lines; (S) for every path of the YAML formatter under the sample entry point\'s constants, every line of the abstract output starts with # (or is empty), multi-line sources occur only through the sanitizer, single-line sources only on #-started lines; (N) the rule line shape and the JSON member shape.',
-  note='textwrap.wrap honouring its indents and single-line sources being free of line breaks are assumed. Since F16 the JSON member value must be a JSON scalar (a TAB in a check string); a namespace\'s rule defaults are walked once (C17.ONCE); generated files are opened truncating.',
+  note='textwrap.wrap honouring its indents and single-line sources being free of line breaks are assumed. Since F16 the JSON member value must be a JSON scalar (a TAB in a check string); a namespace\'s rule defaults are walked once (C17.ONCE); generated files are opened truncating. Per-character escaping helpers are read exactly (pverif/respell.py: which characters stay raw, which escape for which range); a re-spelled JSON member may only use \\uXXXX.',
   ref='3 C17'),
  'C18': dict(
   technique='quoted-hole provenance, pop-guard dominance and branch rules on the rewriting tools',
   text='Static analysis (necessary conditions). Values written between literal quotes of a YAML/JSON scalar must be serialised or come from registered check strings; dict.pop without default must be dominated by membership in the same dict; the converter keeps overrides uncommented; the generator merges file rules with absent registered rules; list-redundant prints only equal rules.',
-  note='Decision preservation over all files is NOT decided.',
+  note='Decision preservation over all files is NOT decided. Since F15 / F18 policy names read from the operator\'s files are tainted like rule values (converter and policy generator); a value re-spelled on its way out must keep only characters a YAML scalar may hold raw and escape the rest with enough digits (DESIGN 9.13).',
   ref='3 C18'),
  'C19': dict(
   technique='polarity, argument-role and duck-type rules on the checker tool',
@@ -108,7 +108,7 @@ T = {
  'C20': dict(
   technique='publication-discipline (write-site) analysis of the shared rule stores',
   text='Static analysis. (S) every write to the shared stores Enforcer.rules / file_rules reachable from load_rules is enumerated and tested against the two safe disciplines (single rebind of a locally built object, or a common lock around writers and readers).',
-  note='Known finding F9: the stores are rebuilt in place without a lock; recorded per write site, any new write site or reader is a violation. Also: flags gating a store-writing step are not lowered by a load, every call loads first, the store class keeps no derived state (DESIGN 9).',
+  note='Known finding F9: the stores are rebuilt in place without a lock; recorded per write site, any new write site or reader is a violation. Also: flags gating a store-writing step are not lowered by a load, every call loads first, the store class keeps no derived state, a file-cache entry is stamped with the new modification time only after its data is stored (C20.CACHE-ORDER) (DESIGN 9).',
   ref='3 C20'),
 }
 
